@@ -117,6 +117,11 @@ const WRITE_CLAUSE: &[&str] = &[
     "detach delete n",
     "FOREACH (k IN [1] | CREATE (:Y))",
     "FOREACH (k IN [1] | SET n.x = 9)",
+    // the grammar's keywords have no word boundary
+    "DETACHDELETE n",
+    "DELETEn",
+    "DETACH DELETEn",
+    "SETn.x = 7",
 ];
 const DDL: &[&str] = &[
     "CREATE INDEX ON :Person(name)",
@@ -151,6 +156,10 @@ const READ_ONLY: &[&str] = &[
     "OPTIONAL MATCH (n:Nope) RETURN n",
     "CALL { MATCH (n) RETURN n.x AS v } RETURN v",
     "MATCH (n) WHERE n.x IN [1,2] RETURN n.name AS name",
+    "MATCH (n) RETURN n.x AS created",
+    "MATCH (settings:Person) RETURN settings.name",
+    "MATCH (n) WITH n.x AS set RETURN set",
+    "MATCH (n) WHERE n.x > 0 RETURN n.x AS deleted ORDER BY deleted",
 ];
 const PROSE_BEFORE: &[&str] = &["Here is the query:", "Sure! Use this:", "To answer the question,\nrun the following:", "", "Certainly.", "I would use MATCH for this:"];
 const PROSE_AFTER: &[&str] = &["Hope this helps!", "This returns the names.", "", "Let me know if you need anything else.", "Note: DELETE is not used here."];
@@ -215,7 +224,7 @@ fn gen_response(r: &mut Rng) -> (String, &'static str, &'static str) {
 }
 
 fn malformed(r: &mut Rng) -> String {
-    let frags = ["```", "`", "\n", "\r\n", " ", "MATCH", "RETURN", "DELETE", "n", "(", ")", "cypher", "é", "'", "\"", "//", "/*", "WITH", "\t", "``"];
+    let frags = ["```", "`", "\n", "\r\n", " ", "MATCH", "RETURN", "DELETE", "n", "(", ")", "cypher", "é", "'", "\"", "//", "/*", "WITH", "\t", "``", "SET", "DETACH", ".x", "=", "1", "CREATE"];
     let k = r.range(0, 8);
     (0..k).map(|_| *r.pick(&frags)).collect::<Vec<_>>().join("")
 }
@@ -306,6 +315,10 @@ fn main() {
     for q in READ_ONLY {
         responses.push((q.to_string(), "read", "bare"));
         responses.push((format!("```cypher\n{}\n```\nDone.", q), "read", "fenced"));
+    }
+    // write keyword glued to other text, no read-keyword line, no fence (parses as DELETE <variable>)
+    for m in ["DELETEMATCH", "\r\nDELETEcypher", "DELETEn\n\r\n\t//'", "RETURN DELETE", "SETn.x=1", "DETACHDELETEn", "RETURNDELETE", "WITH DELETE RETURN 1"] {
+        responses.push((m.to_string(), "malformed", "malformed"));
     }
     let n = if args.thorough { 20000 } else { 1500 };
     for c in 0..n {
